@@ -15,7 +15,9 @@ def run(res, work, tier, seed):
     vlib.tallycore(work, res, "DevNoCloseMutex (second closer returns early)", expect="*", **dict(BASE, Closers='{"z1","z2"}', MaxTicks=1, DevNoCloseMutex="TRUE"))
     if tier == "thorough":
         vlib.tallycore(work, res, "C08: no interval (no loop goroutine), two closers", deadlock=True, **dict(BASE, HasLoop="FALSE", MaxTicks=0, Closers='{"z1","z2"}'))
-        vlib.tallycore(work, res, "C08: gauge + subscope, loop (3 ticks), Close", deadlock=True, **dict(BASE, Script="ScriptC08g", MaxTicks=3))
+        # n.b. GaugeFresh (C02) is not an invariant once a root Close is in the picture: an Update in flight when Close is called is promised
+        #      nothing, and the pass that sees the root closed unregisters it (TLC shows it in 46 steps); C08's own invariants are checked
+        vlib.tallycore(work, res, "C08: gauge + subscope, loop (3 ticks), Close", deadlock=True, drop_invariants=("GaugeFresh",), **dict(BASE, Script="ScriptC08g", MaxTicks=3))
     vlib.run_core_family(res, work, "c08", tier, seed, parts=12, clauses=CLAUSES, timeout=3400)
     res.rule = ("executions of the real root scope under the controlled scheduler with the real report loop goroutine (ticks handed out by the scheduler, so Close can arrive "
                 "before the first tick, between ticks, while the periodic pass is part-way through the registry or held inside a reporter call): DFS over the loop / "
